@@ -21,14 +21,16 @@ fn declare() {
     allow_mask((1 << K_VARIABLE) | (1 << K_BINOPERATION));
 }
 
-/// one (operator, lhs type, rhs type) cell of the table
+/// one (operator, lhs type, rhs type) cell of the table.  The static side (`can_be_used`,
+/// `return_type`) sees operands of the declared static types (local variables); the dynamic side runs the
+/// same operator on witness values of those types (constants: `BinOperation::exec` does not look at
+/// the static types of its operands).
 fn cell(op: BinOperator, t1: Ty, t2: Ty) -> bool {
     let (s1, s2) = (real(t1), real(t2));
     if !can_be_used(&s1, &s2, op) {
         return false;
     }
-    let ins = BinOperation { lhs: local("a", s1), rhs: local("b", s2), op };
-    let rt = ins.return_type();
+    let rt = BinOperation { lhs: local("a", s1), rhs: local("b", s2), op }.return_type();
     let mut k1 = 0;
     while k1 < n_vals(t1) {
         let mut k2 = 0;
@@ -38,8 +40,7 @@ fn cell(op: BinOperator, t1: Ty, t2: Ty) -> bool {
                 if let Variable::Int(e) = &v2 { kani::assume(*e < 3); }
             }
             let mut interp = Interpreter::without_stdlib();
-            interp.insert("a".into(), v1);
-            interp.insert("b".into(), v2);
+            let ins = BinOperation { lhs: Instruction::Variable(v1), rhs: Instruction::Variable(v2), op };
             match ins.exec(&mut interp) {
                 Ok(r) => assert!(sound(&r, &rt)),
                 Err(ExecStop::Error(_)) => (),
@@ -55,45 +56,64 @@ fn cell(op: BinOperator, t1: Ty, t2: Ty) -> bool {
 macro_rules! row {
     ($op:expr, $t1:expr; $($t2:expr),*) => { $( cell($op, $t1, $t2); )* };
 }
+/// three harnesses per operator: scalar rows, array rows, union / any rows
 macro_rules! table {
-    ($name:ident, $op:expr) => {
+    ($(#[$m:meta])* $scalars:ident, $arrays:ident, $unions:ident, $op:expr) => {
+        $(#[$m])*
         #[kani::proof]
         #[kani::unwind(6)]
         #[kani::stub(alloc::fmt::format, crate::verif_common::stub_format)]
-        pub fn $name() {
+        pub fn $scalars() {
             declare();
             crate::verif_model::set_order(0);
             row!($op, T_INT; T_INT, T_FLOAT, T_BOOL, T_STR, T_ARR_INT, T_U_INT_FLOAT, T_ANY);
             row!($op, T_FLOAT; T_INT, T_FLOAT, T_U_INT_FLOAT);
             row!($op, T_BOOL; T_BOOL, T_INT);
             row!($op, T_STR; T_STR, T_INT, T_ARR_INT);
+            kani::cover!(true);
+        }
+        $(#[$m])*
+        #[kani::proof]
+        #[kani::unwind(6)]
+        #[kani::stub(alloc::fmt::format, crate::verif_common::stub_format)]
+        pub fn $arrays() {
+            declare();
+            crate::verif_model::set_order(0);
             row!($op, T_ARR_INT; T_ARR_INT, T_ARR_FLOAT, T_ARR_ANY, T_ARR_NEVER, T_INT, T_STR);
             row!($op, T_ARR_NEVER; T_ARR_INT, T_ARR_NEVER);
+            kani::cover!(true);
+        }
+        $(#[$m])*
+        #[kani::proof]
+        #[kani::unwind(6)]
+        #[kani::stub(alloc::fmt::format, crate::verif_common::stub_format)]
+        pub fn $unions() {
+            declare();
+            crate::verif_model::set_order(0);
             row!($op, T_U_INT_FLOAT; T_INT, T_U_INT_FLOAT);
             row!($op, T_U_INT_ARR_INT; T_INT, T_U_INT_ARR_INT);
             row!($op, T_ANY; T_INT, T_ANY);
-            // the admissibility test accepted the obvious well-typed instance (non-vacuity)
             kani::cover!(true);
         }
     };
 }
-table!(sound_add, BinOperator::Add);
-table!(sound_subtract, BinOperator::Subtract);
-table!(sound_multiply, BinOperator::Multiply);
-table!(sound_divide, BinOperator::Divide);
-table!(sound_modulo, BinOperator::Modulo);
-table!(sound_pow, BinOperator::Pow);
-table!(sound_lshift, BinOperator::LShift);
-table!(sound_rshift, BinOperator::RShift);
-table!(sound_bitand, BinOperator::BitwiseAnd);
-table!(sound_bitor, BinOperator::BitwiseOr);
-table!(sound_xor, BinOperator::Xor);
-table!(sound_equal, BinOperator::Equal);
-table!(sound_not_equal, BinOperator::NotEqual);
-table!(sound_greater, BinOperator::Greater);
-table!(sound_lower_equal, BinOperator::LowerOrEqual);
-table!(sound_and, BinOperator::And);
-table!(sound_or, BinOperator::Or);
+table!(sound_add_scalars, sound_add_arrays, sound_add_unions, BinOperator::Add);
+table!(sound_subtract_scalars, sound_subtract_arrays, sound_subtract_unions, BinOperator::Subtract);
+table!(sound_divide_scalars, sound_divide_arrays, sound_divide_unions, BinOperator::Divide);
+table!(sound_lshift_scalars, sound_lshift_arrays, sound_lshift_unions, BinOperator::LShift);
+table!(sound_bitand_scalars, sound_bitand_arrays, sound_bitand_unions, BinOperator::BitwiseAnd);
+table!(sound_equal_scalars, sound_equal_arrays, sound_equal_unions, BinOperator::Equal);
+table!(sound_greater_scalars, sound_greater_arrays, sound_greater_unions, BinOperator::Greater);
+table!(sound_and_scalars, sound_and_arrays, sound_and_unions, BinOperator::And);
+table!(#[cfg(feature = "verif_thorough")] sound_multiply_scalars, sound_multiply_arrays, sound_multiply_unions, BinOperator::Multiply);
+table!(#[cfg(feature = "verif_thorough")] sound_modulo_scalars, sound_modulo_arrays, sound_modulo_unions, BinOperator::Modulo);
+table!(#[cfg(feature = "verif_thorough")] sound_pow_scalars, sound_pow_arrays, sound_pow_unions, BinOperator::Pow);
+table!(#[cfg(feature = "verif_thorough")] sound_rshift_scalars, sound_rshift_arrays, sound_rshift_unions, BinOperator::RShift);
+table!(#[cfg(feature = "verif_thorough")] sound_bitor_scalars, sound_bitor_arrays, sound_bitor_unions, BinOperator::BitwiseOr);
+table!(#[cfg(feature = "verif_thorough")] sound_xor_scalars, sound_xor_arrays, sound_xor_unions, BinOperator::Xor);
+table!(#[cfg(feature = "verif_thorough")] sound_not_equal_scalars, sound_not_equal_arrays, sound_not_equal_unions, BinOperator::NotEqual);
+table!(#[cfg(feature = "verif_thorough")] sound_lower_equal_scalars, sound_lower_equal_arrays, sound_lower_equal_unions, BinOperator::LowerOrEqual);
+table!(#[cfg(feature = "verif_thorough")] sound_or_scalars, sound_or_arrays, sound_or_unions, BinOperator::Or);
 
 /// indexing: admissibility as in at::create (index static type == int, sequence can_be_indexed)
 fn at_cell(t1: Ty) {
@@ -101,14 +121,12 @@ fn at_cell(t1: Ty) {
     if !s1.can_be_indexed() {
         return;
     }
-    let ins = BinOperation { lhs: local("a", s1), rhs: local("b", Type::Int), op: BinOperator::At };
-    let rt = ins.return_type();
+    let rt = BinOperation { lhs: local("a", s1), rhs: local("b", Type::Int), op: BinOperator::At }.return_type();
     let mut k1 = 0;
     while k1 < n_vals(t1) {
         let i: i64 = kani::any();
         let mut interp = Interpreter::without_stdlib();
-        interp.insert("a".into(), val(t1, k1));
-        interp.insert("b".into(), Variable::Int(i));
+        let ins = BinOperation { lhs: Instruction::Variable(val(t1, k1)), rhs: Instruction::Variable(Variable::Int(i)), op: BinOperator::At };
         match ins.exec(&mut interp) {
             Ok(r) => assert!(sound(&r, &rt)),
             Err(ExecStop::Error(e)) => assert!(matches!(e, ExecError::IndexOutOfBounds)),
@@ -120,13 +138,21 @@ fn at_cell(t1: Ty) {
 #[kani::proof]
 #[kani::unwind(6)]
 #[kani::stub(alloc::fmt::format, crate::verif_common::stub_format)]
-pub fn sound_at() {
+pub fn sound_at_arrays() {
     declare();
     crate::verif_model::set_order(0);
     at_cell(T_ARR_INT);
     at_cell(T_ARR_U_INT_FLOAT);
     at_cell(T_ARR_ANY);
     at_cell(T_ARR_NEVER);
+    kani::cover!(true);
+}
+#[kani::proof]
+#[kani::unwind(6)]
+#[kani::stub(alloc::fmt::format, crate::verif_common::stub_format)]
+pub fn sound_at_strings_and_unions() {
+    declare();
+    crate::verif_model::set_order(0);
     at_cell(T_STR);
     at_cell(T_U_ARRS);
     at_cell(T_INT);
